@@ -224,6 +224,12 @@ def refundSub (s : State) (item : Sub) : M State :=
     if hr ≠ 0 then refundHr s1 item else pure s1
   | .plan _ _ => pure s
 
+/-- Delete the allocations of a subscription (and the holders' by-account index entries). -/
+def removeAllocs (s : State) (id : Nat) (addrs : List Addr) : State :=
+  addrs.foldl (fun s a =>
+    let s := { s with allocs := s.allocs.erase (id, a) }
+    { s with subForAcc := s.subForAcc.erase (a, id) }) s
+
 /-- Delete the subscription record with its allocations and index entries. -/
 def removeSubRecords (s : State) (item : Sub) : State :=
   let s := match item.kind with
@@ -233,9 +239,7 @@ def removeSubRecords (s : State) (item : Sub) : State :=
       { s with subForAcc := s.subForAcc.erase (item.addr, item.id) }
     | .plan planId _ =>
       let s := { s with subForPlan := s.subForPlan.erase (planId, item.id) }
-      (allocAddrsForSub s item.id).foldl (fun s a =>
-        let s := { s with allocs := s.allocs.erase (item.id, a) }
-        { s with subForAcc := s.subForAcc.erase (a, item.id) }) s
+      removeAllocs s item.id (allocAddrsForSub s item.id)
   let s := { s with subs := s.subs.erase item.id }
   emit s (evSubStatus item .StatusInactive)
 
